@@ -71,7 +71,8 @@ let idx_of spec l = match spec with
 
 let exec (toks : string list) : string list =
   let c = parse toks in
-  let comp = c.fmt <> "raw" in
+  (* `rawn` = raw format with a non-native element type (8 bytes wide): the same step model as `raw` *)
+  let comp = c.fmt <> "raw" && c.fmt <> "rawn" in
   let hint_field p = L.find_map (fun h -> if S.length h > 0 && h.[0] = p then Some (S.sub h 1 (S.length h - 1)) else None) c.hints in
   let flen0 = n_of_string (Option.value (hint_field 'F') ~default:"1048576") in
   let start0 = n_of_string (Option.value (hint_field 'S') ~default:"0") in
@@ -310,7 +311,9 @@ let exec (toks : string list) : string list =
           (match rest with [] -> Done | _ -> rseq true "h:op-start" (run_ops (k + 1) rest)) in
         let names = match kind, comp with
           | "get", false -> ("ro-raw:after-len", "ro-raw:after-reader", "")
-          | ("rng" | "cur"), false -> ("ro-raw:after-len", "ro-raw:after-reader-bulk", "")
+          (* non-native element: no bulk memcpy, collect_range_at and the cursor read value by value through the fold source
+             (raw/inner/read_only/readable.rs:41) *)
+          | ("rng" | "cur"), false -> ("ro-raw:after-len", (if c.fmt = "rawn" then "raw-mmap-source:after-reader" else "ro-raw:after-reader-bulk"), "")
           | "fold", false -> ("ro-raw:after-len", "raw-mmap-source:after-reader", "")
           | "vr", _ -> ("vec-reader:after-len", "vec-reader:after-reader", "")
           | ("get" | "fold"), true -> ("ro-comp:after-len", "comp-mmap-source:after-reader", "comp-mmap-source:after-pages-lock")
